@@ -230,6 +230,19 @@ def cli_part(chk):
         expect("abandoned after 1 of 3 invocations", ["-D", "c.yaml"], 1, script={"by_key": {"Ba:2": {"rc": 0, "out": "garbage\n"}}})
         expect("output with braces and a failure", ["-D", "c.yaml"], 1, script={"by_key": {"Ba": {"rc": 2, "out": "{x} {0} }{ {ind}\n"}}})
         expect("unparsable output with braces", ["-D", "c.yaml"], 1, script={"by_key": {"Bb": {"rc": 0, "out": "{'a': 1} {ind}{ind}\n"}}})
+        # env values that are not lists of shell words (an apostrophe), quotes and blanks next to a ~
+        quoted = cli_config(d, ["Ba"], extra_suite={"env": {"FLAGS": "it's", "Q": "~/x  'a  b'", "R": 'say "hi'}})
+        expect("env values with quotes", ["-D", "c.yaml"], 0, raw=quoted, script={})
+        expect("plan with env values with quotes", ["-D", "-p", "c.yaml"], 0, raw=quoted, script={}, no_start=True)
+        # settings written without a value: inherited, also when the run then fails and is retried
+        unset = {"max_invocation_time": None, "retries_after_failure": None, "min_iteration_time": None, "ignore_timeouts": None,
+                 "execute_exclusively": None, "invocations": None, "warmup": None}
+        expect("settings without a value, failing run", ["-D", "c.yaml"], 1, raw=cli_config(d, [{"Ba": dict(unset)}, "Bb"], extra_suite=dict(unset)),
+               script={"by_key": {"Ba": {"rc": 1, "out": "boom\n"}}})
+        # -d: the output is read while the process runs; what it had written when it ended belongs to it as well
+        chatty = "".join("progress line %d\n" % k for k in range(40))
+        expect("chatty harness under -d", ["-D", "-d", "c.yaml"], 0, raw=ok3,
+               script={"default": {"rc": 0, "out": chatty + "B: iterations=1 runtime: 5ms\n"}})
         # output that is not UTF-8: in a failing run (printed), in an unparsable one, in a criterion of a successful run (recorded),
         # in the output of a failing build (printed and logged)
         bad = "ff fe 7b c3 28 0a".replace(" ", "")
